@@ -50,11 +50,14 @@ CHECKS = {
     "C04": dict(
         text="Executable Coq model of the treeinfo writer (all sections incl. nested variants, paths, images, stage2, media, "
              "checksums, [general]) on a model of SortedConfigParser, of the >= 1.0 reader, and of discinfo. Proved: "
-             "C04_typed_checksum_roundtrip. The tree-level statement is decided by the docs_treeinfo correspondence: model "
+             "C04_typed_checksum_roundtrip; writer side of the tree-level statement: C04_written_release_and_tree (the scalar facts of "
+             "[release] and [tree] are in the written table at their documented places and survive every later section writer) and "
+             "C04_variant_writer_stays_in_its_sections; C17_general_mirror covers [general]. The reader side and the remaining "
+             "sections are decided by the docs_treeinfo correspondence: model "
              "writer vs real writer byte for byte; the section table the real parser produces from the written text is loaded by "
              "the model reader and compared with the re-read object; implementation-side oracle compares every fact and the "
              "second write; discinfo likewise.",
-        note="Partial: deser_ti (ser_ti x) = Ok (norm x) is not yet a Coq theorem. ConfigParser text parsing and float repr are "
+        note="Partial: deser_ti (ser_ti x) = Ok (norm x) is not a Coq theorem (writer-side facts are). ConfigParser text parsing and float repr are "
              "CPython's; values containing '%' (interpolation) are outside the generated domain (O2).",
         design="DESIGN.md section 6 C04"),
     "C05": dict(
